@@ -86,7 +86,14 @@ func (s *scripted) Get(url string) (map[string][]string, []byte, error) {
 	if len(s.starts) == s.successAt {
 		return s.header, s.body, nil
 	}
-	return map[string][]string{"X-Failed": {"1"}}, []byte("failure body"), failure(s.errKind+len(s.starts)*(s.errKind/nErrKinds), url)
+	return failedHeaders[(s.errKind*7+len(s.starts))%len(failedHeaders)], []byte("failure body"), failure(s.errKind+len(s.starts)*(s.errKind/nErrKinds), url)
+}
+
+// failedHeaders are what a failed attempt may return next to its error (e.g. the headers of a 429 / 503 answer):
+// they are not a success, and whatever they say the waits stay positive and at most MaxRetryDelay.
+var failedHeaders = []map[string][]string{
+	nil, {"X-Failed": {"1"}}, {"Retry-After": {"0"}}, {"Retry-After": {"1"}}, {"retry-after": {"0"}}, {"Retry-After": {"-5"}}, {"Retry-After": {"99999999999999999999"}},
+	{"Retry-After": {"Wed, 21 Oct 2015 07:28:00 GMT"}}, {"Retry-After": {"0", "30"}}, {"Retry-After": {""}}, {"Retry-After": {"86400"}}, {},
 }
 
 type c20Case struct {
